@@ -178,6 +178,7 @@ func Load(repo, tier string) *World {
 		}
 	}
 	initSprintf(w)
+	theWorld = w
 	return w
 }
 
